@@ -49,3 +49,17 @@ void orc_defer_check_all(int mark, const char *what);	/* AFTER rcu_defer_barrier
 void orc_defer_check_thread(int thread, int mark, const char *what);
 int orc_defer_total(void);
 #endif
+
+/* ---- hash-table presence / traversal oracle ---- */
+#ifndef SCEN_ORACLE_HT_H
+#define SCEN_ORACLE_HT_H
+void hor_node(int id, int key);
+void hor_added(int id, uint64_t inv);		/* at return of the op that inserted it */
+void hor_removed(int id, uint64_t inv);		/* at return of the op that obtained it */
+int hor_trav_begin(int key);			/* key < 0: whole table */
+void hor_trav_visit(int t, int id);
+void hor_trav_end(int t);
+void hor_check(unsigned unique_key_mask);	/* post-run */
+int hor_present_count(void);			/* nodes added and not removed (call at quiescence) */
+int hor_is_present(int id);
+#endif
